@@ -7,12 +7,16 @@ def classify(case):
 
 SPEC = dict(
     prop="C23",
-    coq_targets=["props/C23.vo"],
+    coq_targets=["props/C23.vo"], model_targets=["models/SyncTree.vo"],
     drivers=[
         dict(name="syncdir", kind="main", pkg="./zzverif/c23",
              n=dict(quick=200, thorough=6000), timeout=dict(quick=300, thorough=1500),
              ev=dict(requires=["V.lib.Bytes", "V.models.SyncDir"], case_type="SyncDir.case",
                      mismatch="SyncDir.mismatch", monitor="SyncDir.monitor_fail")),
+        dict(name="synctree", kind="main", pkg="./zzverif/c23", env=dict(VERIF_C23_MODE="tree"),
+             n=dict(quick=100, thorough=4000), timeout=dict(quick=300, thorough=1500),
+             ev=dict(requires=["V.lib.Bytes", "V.models.SyncDir", "V.models.SyncTree"], case_type="SyncTree.case",
+                     mismatch="SyncTree.mismatch", monitor="SyncTree.monitor_fail")),
     ],
     classify=classify,
     rule=("real osutil.EnsureDirStateGlobs / EnsureDirState (and through them EnsureFileState, AtomicWrite, AtomicSymlink) on "
@@ -25,18 +29,24 @@ SPEC = dict(
           "have a path component, State() failing at the n-th call of a random entry; the visiting order of the content map is "
           "observed through the FileState values and fed to the model; (c) filepath.Match on 160 (glob, name) pairs against the "
           "hand model of globs. Compared: directory listing after the call (type, content, permission bits, symlink target), "
-          "changed, removed, err != nil. Non-trivial = something changed/removed or an error."),
+          "changed, removed, err != nil. Non-trivial = something changed/removed or an error. "
+          "Driver synctree: real osutil.EnsureTreeState on temp trees over 6 directory paths (depth <= 3, some created by the call), "
+          "5 file names, 1-2 globs, stale matching files in directories without content, State() failing at the n-th call of a random "
+          "entry of a random directory, directory paths with a glob-matching component / bad file names; the order of the content "
+          "directories and of the entries inside each is observed through the FileState values; compared file by file over the "
+          "whole tree, plus changed, removed, err."),
     exhaustive=dict(quick=True, thorough=True),
     trusted_base=[
         "hand-written model coq/models/SyncDir.v of osutil/syncdir.go, tied by the differential run (harness/overlay/zzverif/c23/main.go)",
         "the kernel file system and os.* / filepath.Glob / filepath.Match are modelled (name -> node map; globs limited to literal bytes, * and ?), validated on the generated cases only",
+        "hand-written model coq/models/SyncTree.v of osutil/synctree.go on top of SyncDir.v, tied by the same driver in tree mode (VERIF_C23_MODE=tree)",
         "AtomicWrite/AtomicSymlink are modelled as one atomic replace that fails only when a directory is in the way; their temporary files are not modelled (a leaked one would show up in the compared listing)",
     ],
     assumptions=[
         "the managed directory exists and is writable (root in the sandbox); the only os.Remove failure modelled is a non-empty directory",
         "symlinks in the managed directory point outside it (the outside table), never at another managed name",
         "glob patterns without character classes / escapes; content names other than `/`",
-        "osutil.EnsureTreeState (synctree.go) is NOT covered: no model, no driver",
+        "EnsureTreeState: no directory name in the tree matches the globs (the documented caller obligation) and no file is in the way of a directory to create (MkdirAll failure not modelled); WHICH emptied/empty directories are removed depends on the map iteration order (cumulative `removed` test in the Go code), is modelled with explicit orders but not compared by the tie (trees are compared file by file)",
         "failure injection is through FileState.State() errors and directories in the way; a reader failing in mid-copy and ENOSPC are not injected",
     ],
 )
